@@ -85,6 +85,13 @@ func (c *chatHandler) handleSessionChat(packet *chat.SessionPlayerChat, unsigned
 			if packet.Signed {
 				c.invalidCancel(c.log, c.player)
 			}
+			// The message is consumed, but the chat state has already folded the
+			// acknowledgements held back so far into its 'last seen' update. Pass them on
+			// like for a consumed command, otherwise they are lost for good and the
+			// backend's last-seen window falls behind the client's.
+			if newLastSeenMessages != nil && newLastSeenMessages.Offset != 0 {
+				return asFuture(&chat.ChatAcknowledgement{Offset: newLastSeenMessages.Offset})
+			}
 			return asFuture(nil)
 		}
 		if evt.Message() != packet.Message {
